@@ -9,13 +9,13 @@
 //! ```text
 //! case \t <id> \t <tag> \t <wire project | demo:<name>>
 //!        => ok \t <hex schema SDL> \t <pointer table> | diag \t <kinds> | panic \t <hex message>
-//! c09 \t <artifact path>
+//! c09 \t <id> \t <artifact path>
 //!        => <hex file content> \t v:<hex string value under node> | e:<why>      (or `missing`)
-//! casegraph
+//! casegraph \t <id>
 //!        => <graph wire (graphwire.rs)> | e:<hex message>
-//! c25 \t <entrypoint artifact path>
+//! c25 \t <id> \t <entrypoint artifact path>
 //!        => <n> (\t <hex trail> = <hex selected artifact | !missing | entry:…>)*
-//! c10 \t <entrypoint artifact path> \t <response seed> \t <shape>
+//! c10 \t <id> \t <entrypoint artifact path> \t <response seed> \t <shape>
 //!        => <hex variables JSON> \t <hex response JSON> \t <runtime outcome>
 //! ```
 //!
@@ -236,20 +236,20 @@ fn lines_for_case(engine: &str, i: u64, tag: &str, spec: &str, r: &mut Rng) -> V
     match engine {
         "c09" => {
             for k in c.outcome.artifacts.keys().filter(|k| is_query_text(k)) {
-                lines.push(format!("c09\t{k}"));
+                lines.push(format!("c09\t{i}\t{k}"));
             }
         }
         "c25" => {
-            lines.push("casegraph".to_string());
+            lines.push(format!("casegraph\t{i}"));
             for e in entrypoints {
-                lines.push(format!("c25\t{e}"));
+                lines.push(format!("c25\t{i}\t{e}"));
             }
         }
         "c10" => {
-            lines.push("casegraph".to_string());
+            lines.push(format!("casegraph\t{i}"));
             for e in entrypoints {
                 for shape in ["full", "random", "random", "sparse"] {
-                    lines.push(format!("c10\t{e}\t{}\t{shape}", r.next() % 1_000_000));
+                    lines.push(format!("c10\t{i}\t{e}\t{}\t{shape}", r.next() % 1_000_000));
                 }
             }
         }
@@ -316,9 +316,9 @@ fn main() {
                 }
                 let n = node.get_or_insert_with(|| Node::spawn("ops_eval.mjs", &[]));
                 match f[0] {
-                    "c09" => c09_answer(c, n, f.get(1).copied().unwrap_or("")),
+                    "c09" => c09_answer(c, n, f.get(2).copied().unwrap_or("")),
                     "casegraph" => graph_answer(c, n),
-                    "c25" => c25_answer(c, n, f.get(1).copied().unwrap_or("")),
+                    "c25" => c25_answer(c, n, f.get(2).copied().unwrap_or("")),
                     _ => {
                         let values = ensure_values(c, n).clone();
                         let rtn = rt.get_or_insert_with(|| Node::spawn("ops_runtime.mjs", &["/repo/libs/isograph-react/src/core"]));
